@@ -48,9 +48,17 @@ OPS = [
 
 
 def sh(cmd, cwd=None, timeout=600, env=None):
+    import signal
+    p = subprocess.Popen(cmd, cwd=cwd, stdout=subprocess.PIPE, stderr=subprocess.PIPE, text=True, env=env, start_new_session=True)
     try:
-        return subprocess.run(cmd, cwd=cwd, capture_output=True, text=True, timeout=timeout, env=env)
+        o, e = p.communicate(timeout=timeout)
+        return subprocess.CompletedProcess(cmd, p.returncode, o, e)
     except subprocess.TimeoutExpired:
+        try:
+            os.killpg(p.pid, signal.SIGKILL)   # a mutant may make a test spin forever: kill the whole group
+        except Exception:
+            pass
+        p.wait()
         return subprocess.CompletedProcess(cmd, 124, "", "timeout")
 
 
@@ -130,7 +138,7 @@ def main():
                 info["id"] = mid
                 open(os.path.join(work, rel), "w").write(text)
                 t0 = time.time()
-                b = sh(["cargo", "test", "--offline", "-q"], cwd=work, env=env, timeout=300)
+                b = sh(["cargo", "test", "--offline", "-q"], cwd=work, env=env, timeout=120)
                 info["tests_rc"] = b.returncode
                 info["tests_s"] = round(time.time() - t0, 1)
                 if b.returncode == 0:
